@@ -126,6 +126,7 @@ def arith(op, a, b):
   if op == '-': return a - b
   if op == '*': return a * b
   if op == '%':
+    if isinstance(a, float) or isinstance(b, float): raise Unsupported('% on fractional numbers')    # engine-specific (SQLite truncates)
     if b == 0: return None
     r = abs(a) % abs(b)
     return r if a >= 0 else -r
@@ -571,7 +572,9 @@ class Evaluator:
       return dict(r)[e[2]]
     if t == 'elem':
       l, i = self.ev(e[1], env, scope), self.ev(e[2], env, scope)
-      if l is None or i is None or not (0 <= i < len(l)): return None
+      if l is None or i is None: return None
+      if isinstance(i, float) or i < 0: raise Unsupported('negative or fractional list index')   # engine-specific (SQLite: JSON path error)
+      if i >= len(l): return None
       return l[i]
     if t == 'inx':
       x, l = self.ev(e[1], env, scope), self.ev(e[2], env, scope)
